@@ -429,9 +429,11 @@ NoOversizeBody(s) == s.overbody = 0
 
 \* ("dotunder" / "dotundernested": names beginning with "._" at the top and below a directory: plain chart files)
 \* ("template": an ordinary file under templates/; "dotdotname": a name with consecutive dots that are NOT a path
-\*  element, e.g. templates/v1..v2-migration.yaml, docs/changes-1.0..2.0.md - valid names)
+\*  element, e.g. templates/v1..v2-migration.yaml, docs/changes-1.0..2.0.md - valid names;
+\*  "dotdotprefix": a file or directory name that BEGINS with two dots without being "..": ..foo, ..data/x,
+\*  templates/..x.yaml, files/..hidden - valid names as well)
 PathClasses    == {"top", "nested", "unicode", "dotfile", "tpldot", "chartsentry", "dotunder", "dotundernested",
-                   "template", "dotdotname"}
+                   "template", "dotdotname", "dotdotprefix"}
 \* ("bom": text behind a UTF-8 BOM; "bombinary": bytes that are NOT valid UTF-8 behind EF BB BF; "binary": without)
 ContentClasses == {"empty", "text", "binary", "bom", "bombinary", "crlf"}
 DepShapes      == {"none", "dir", "tgz", "dirdir", "dirtgz", "tgzdir", "tgztgz", "dirandtgz"}
